@@ -14,6 +14,8 @@ import SkyllhModel.Model.Cache
 import SkyllhModel.Proofs.Cache
 import SkyllhModel.Model.CacheTop
 import SkyllhModel.Proofs.CacheTop
+import SkyllhModel.Model.CacheI3R7
+import SkyllhModel.Proofs.CacheI3R7
 import SkyllhModel.Generated.C06
 import Mathlib.Tactic
 
@@ -1015,3 +1017,251 @@ example : ¬ Sound (F := Int) ⟨false, true, true, true⟩ ⟨true, false, fals
 
 /-- the reflexivity hypothesis of `c06_second_evaluate_hits` holds for the exact hit test -/
 example : ∀ a : Int, (fun x y : Int => x == y) a a = true := by intro a; simp
+
+
+/-! ## Round 7 — the one-slot cache of `SplinedI3EnergySigSetOverBkgPDFRatio` (Model/CacheI3R7.lean)
+
+`get_ratio` / `get_gradient` of the splined I3 energy PDF ratio keep the last ratio and gradient rows together with the
+trial data state id and the (reduced) per-source parameter values.  `close0` is the "difference is close to zero" test of
+`_create_interpol_params_recarray`; the only thing the proofs need from it is reflexivity (a value is close to itself —
+true for every non-NaN double, and for `closeAbs atol` over an ordered field iff `0 ≤ atol`, see
+`c06_i3_close_refl_for_current_source`).  `World.compute` is arbitrary. -/
+
+section I3
+open CacheI3 C06I3
+
+variable {D S P R : Type} [DecidableEq P]
+
+/-- the slot invariant (a slot filled under the current state id holds the stateless value of the current data and source
+at a reduced key; no stored id exceeds the current one) is kept by every operation, for every state that has it -/
+theorem c06_i3_slot_inv (W : CacheI3.World D S P R) (close0 : P → P → Bool) (hrefl : ∀ a, close0 a a = true)
+    (st : CacheI3.St D S P R) (h : SlotInv W close0 st) (o : CacheI3.Op D S P) :
+    SlotInv W close0 (CacheI3.step W true close0 st o).1 :=
+  step_inv W close0 hrefl st h o
+
+/-- **transparency**: after any history on a freshly built ratio object, `get_ratio`/`get_gradient` at per-source values
+`p :: rest` hands out what a fresh object computes from the data and source of the last initTrial / changeSource — or
+stops with numpy's broadcasting error (excluded by `c06_i3_no_shape_error` for a fixed number of sources) -/
+theorem c06_i3_transparent (W : CacheI3.World D S P R) (close0 : P → P → Bool) (hrefl : ∀ a, close0 a a = true)
+    (d0 : D) (s0 : S) (ops : List (CacheI3.Op D S P)) (p : P) (rest : List P) :
+    let st := (CacheI3.run W true close0 (CacheI3.fresh d0 s0) ops).1
+    (∃ hit, (CacheI3.step W true close0 st (.get p rest)).2
+        = .val (pureGet W close0 (CacheI3.lastData d0 ops) (CacheI3.lastSrc s0 ops) (p :: rest)) hit) ∨
+      (CacheI3.step W true close0 st (.get p rest)).2 = .shapeError := by
+  intro st
+  have h := run_inv W close0 hrefl ops (CacheI3.fresh d0 s0) (inv_fresh W close0 d0 s0)
+  have hs := (lookup_spec W close0 hrefl st h.1 p rest).2.2.2.2
+  have hd : st.d = CacheI3.lastData d0 ops := h.2.1
+  have hsrc : st.s = CacheI3.lastSrc s0 ops := h.2.2
+  rw [hd, hsrc] at hs
+  exact hs
+
+/-- two arbitrary histories ending on the same data and source answer alike (when both answer) -/
+theorem c06_i3_history_independent (W : CacheI3.World D S P R) (close0 : P → P → Bool)
+    (hrefl : ∀ a, close0 a a = true) (d0 d0' : D) (s0 s0' : S) (ops ops' : List (CacheI3.Op D S P))
+    (hd : CacheI3.lastData d0 ops = CacheI3.lastData d0' ops') (hs : CacheI3.lastSrc s0 ops = CacheI3.lastSrc s0' ops')
+    (p : P) (rest : List P) (r r' : R) (hit hit' : Bool)
+    (h1 : (CacheI3.step W true close0 (CacheI3.run W true close0 (CacheI3.fresh d0 s0) ops).1 (.get p rest)).2 = .val r hit)
+    (h2 : (CacheI3.step W true close0 (CacheI3.run W true close0 (CacheI3.fresh d0' s0') ops').1 (.get p rest)).2
+        = .val r' hit') : r = r' := by
+  rcases c06_i3_transparent W close0 hrefl d0 s0 ops p rest with ⟨_, e1⟩ | e1 <;>
+  rcases c06_i3_transparent W close0 hrefl d0' s0' ops' p rest with ⟨_, e2⟩ | e2 <;>
+  simp only [h1, h2, hd, hs, CacheI3.Res.val.injEq, reduceCtorEq] at e1 e2
+  rw [e1.1, e2.1]
+
+/-- a hit means the same trial data state id and the same reduced key: on keys produced by
+`_create_interpol_params_recarray` numpy's broadcasting `np.all(cached == new)` is plain equality -/
+theorem c06_i3_hit_implies_same_key (close0 : P → P → Bool) (hrefl : ∀ a, close0 a a = true) (a : List P)
+    (ha : Reduced close0 a) (p : P) (rest : List P)
+    (h : CacheI3.keyEq a (CacheI3.reduceKey close0 (p :: rest)) = some true) :
+    a = CacheI3.reduceKey close0 (p :: rest) :=
+  keyEq_reduced close0 hrefl a _ ha (reduced_reduceKey close0 p rest) h
+
+/-- `_create_interpol_params_recarray` is idempotent and never yields an empty key for K ≥ 1 sources -/
+theorem c06_i3_reduce_key (close0 : P → P → Bool) (p : P) (rest : List P) :
+    CacheI3.reduceKey close0 (CacheI3.reduceKey close0 (p :: rest)) = CacheI3.reduceKey close0 (p :: rest) ∧
+    CacheI3.reduceKey close0 (p :: rest) ≠ [] ∧
+    ((CacheI3.reduceKey close0 (p :: rest)).length = 1 ∨
+      (CacheI3.reduceKey close0 (p :: rest)).length = (p :: rest).length) := by
+  refine ⟨reduceKey_idem close0 _, (reduced_reduceKey close0 p rest).2, ?_⟩
+  unfold CacheI3.reduceKey
+  split <;> simp
+
+/-- with a fixed number K of sources the cached and the new key always broadcast: no shape error -/
+theorem c06_i3_no_shape_error (close0 : P → P → Bool) (p q : P) (rest rest' : List P)
+    (hK : rest.length = rest'.length) :
+    (CacheI3.keyEq (CacheI3.reduceKey close0 (p :: rest)) (CacheI3.reduceKey close0 (q :: rest'))).isSome = true := by
+  apply keyEq_isSome_of_len _ _ (rest.length + 1)
+  · simpa using (c06_i3_reduce_key close0 p rest).2.2
+  · simpa [hK] using (c06_i3_reduce_key close0 q rest').2.2
+
+/-- `get_gradient`: the shortcut "fit parameter belongs to all sources → hand out the cached row" and the branch
+"belongs to no source → zeros" agree with the general masked assembly -/
+theorem c06_i3_gradient_branches_agree {F : Type} [OfNat F 0] (srcOf gp : List Nat) (fid : Nat) (grads : List F)
+    (hl : grads.length = srcOf.length) (hsrc : ∀ k ∈ srcOf, k < gp.length) :
+    CacheI3.gradOut srcOf gp fid grads = CacheI3.assemble srcOf gp fid grads := by
+  unfold CacheI3.gradOut
+  simp only
+  split
+  · rename_i h0
+    rw [assemble_none srcOf gp fid grads hl]
+    intro k hk hc
+    have hmem : gp[k]'(hsrc k hk) = fid + 1 := by
+      have := List.getElem?_eq_getElem (hsrc k hk); rw [this] at hc; exact Option.some.inj hc
+    have : gp[k]'(hsrc k hk) ∈ gp.filter (fun g => g == fid + 1) :=
+      List.mem_filter.mpr ⟨List.getElem_mem _, by simp [hmem]⟩
+    rw [List.length_eq_zero_iff.mp h0] at this
+    simp at this
+  · split
+    · rename_i _ hall
+      rw [assemble_all srcOf gp fid grads hl]
+      intro k hk
+      have hf : gp.filter (fun g => g == fid + 1) = gp := List.length_filter_eq_length_iff.mp hall |> fun h =>
+        List.filter_eq_self.mpr h
+      have hm : gp[k]'(hsrc k hk) ∈ gp.filter (fun g => g == fid + 1) := by rw [hf]; exact List.getElem_mem _
+      have := (List.mem_filter.mp hm).2
+      rw [List.getElem?_eq_getElem (hsrc k hk)]
+      simpa using this
+    · rfl
+
+/-- without the state-id bump (the pinned commit for trial data managers without data fields) the slot answers a new
+trial with the previous trial's rows -/
+theorem c06_i3_stuck_state_id_counterexample :
+    (CacheI3.run (⟨fun d _ k => (d, k)⟩ : CacheI3.World Nat Nat Nat (Nat × List Nat)) false (fun a b => a == b)
+        (CacheI3.fresh 0 0) [.get 7 [], .initTrial 1, .get 7 []]).2
+      = [.val (0, [7]) false, .unit, .val (0, [7]) true] := by decide
+
+/-- the generated tolerance makes "close to zero" reflexive (the hypothesis of the theorems above) -/
+theorem c06_i3_close_refl_for_current_source (a : ℚ) : CacheI3.closeAbs (Gen.C06.i3Atol : ℚ) a a = true := by
+  simp [CacheI3.closeAbs, Gen.C06.i3Atol]
+  norm_num
+
+/-- transparency for the flags / constants of the current source, over exact rationals -/
+theorem c06_i3_transparent_for_current_source {D S R : Type} (W : CacheI3.World D S ℚ R) (d0 : D) (s0 : S) (ops : List (CacheI3.Op D S ℚ)) (p : ℚ) (rest : List ℚ) :
+    let close0 := CacheI3.closeAbs (Gen.C06.i3Atol : ℚ)
+    let st := (CacheI3.run W Gen.C06.bumpAlways close0 (CacheI3.fresh d0 s0) ops).1
+    (∃ hit, (CacheI3.step W Gen.C06.bumpAlways close0 st (.get p rest)).2
+        = .val (pureGet W close0 (CacheI3.lastData d0 ops) (CacheI3.lastSrc s0 ops) (p :: rest)) hit) ∨
+      (CacheI3.step W Gen.C06.bumpAlways close0 st (.get p rest)).2 = .shapeError := by
+  have hb : Gen.C06.bumpAlways = true := by simp [Gen.C06.bumpAlways]
+  rw [hb]
+  exact c06_i3_transparent W _ c06_i3_close_refl_for_current_source d0 s0 ops p rest
+
+/-! ### `PDFRatioProduct` with the caching ratio as a factor -/
+
+section I3Product
+variable {F : Type} [Add F] [Mul F] [OfNat F 0] [DecidableEq F]
+
+/-- **trace theorem for the product**: along any history of trials, source changes, direct calls of the caching factor and
+`get_ratio` / `get_gradient` calls of the product (each of which goes through the factor's slot once or twice), *every*
+answer is the stateless product — `r1·r2`, resp. the product rule in the branch `PDFRatioProduct.get_gradient` takes for
+that fit parameter, on the data and source of that moment — or numpy's broadcasting error -/
+theorem c06_i3_product_trace (W : CacheI3.World D S F (List F × List F)) (B : CacheI3.Stub D S F)
+    (close0 : F → F → Bool) (hrefl : ∀ a, close0 a a = true) (srcOf : D → List Nat) (gp : List Nat) (d0 : D) (s0 : S)
+    (pre : List (CacheI3.POp D S F)) (o : CacheI3.POp D S F) :
+    let st := (CacheI3.prun W B true close0 srcOf gp (CacheI3.fresh d0 s0) pre).1
+    PAnswer W B close0 srcOf gp (CacheI3.plastData d0 (pre ++ [o])) (CacheI3.plastSrc s0 (pre ++ [o])) o
+      (CacheI3.pstep W B true close0 srcOf gp st o).2 := by
+  intro st
+  have h := prun_inv W B close0 hrefl srcOf gp pre (CacheI3.fresh d0 s0) (inv_fresh W close0 d0 s0)
+  have hs := pstep_spec W B close0 hrefl srcOf gp st h.1 o
+  have hd : CacheI3.plastData d0 (pre ++ [o]) = (CacheI3.pstep W B true close0 srcOf gp st o).1.d := by
+    rw [hs.2.1, h.2.1, plast_snoc_d]; rfl
+  have hsr : CacheI3.plastSrc s0 (pre ++ [o]) = (CacheI3.pstep W B true close0 srcOf gp st o).1.s := by
+    rw [hs.2.2.1, h.2.2, plast_snoc_s]; rfl
+  rw [hd, hsr]
+  exact hs.2.2.2
+
+/-- history independence of the product: two histories that end on the same data and source give the same gradient
+answer for the same fit parameter and point (when neither stops with the broadcasting error) -/
+theorem c06_i3_product_history_independent (W : CacheI3.World D S F (List F × List F)) (B : CacheI3.Stub D S F)
+    (close0 : F → F → Bool) (hrefl : ∀ a, close0 a a = true) (srcOf : D → List Nat) (gp : List Nat) (d0 d0' : D)
+    (s0 s0' : S) (pre pre' : List (CacheI3.POp D S F)) (fid : Nat) (p : F) (rest : List F)
+    (hd : CacheI3.plastData d0 pre = CacheI3.plastData d0' pre') (hs : CacheI3.plastSrc s0 pre = CacheI3.plastSrc s0' pre')
+    (h1 : (CacheI3.pstep W B true close0 srcOf gp (CacheI3.prun W B true close0 srcOf gp (CacheI3.fresh d0 s0) pre).1
+      (.pgrad fid p rest)).2 ≠ .shapeError)
+    (h2 : (CacheI3.pstep W B true close0 srcOf gp (CacheI3.prun W B true close0 srcOf gp (CacheI3.fresh d0' s0') pre').1
+      (.pgrad fid p rest)).2 ≠ .shapeError) :
+    (CacheI3.pstep W B true close0 srcOf gp (CacheI3.prun W B true close0 srcOf gp (CacheI3.fresh d0 s0) pre).1
+      (.pgrad fid p rest)).2 =
+    (CacheI3.pstep W B true close0 srcOf gp (CacheI3.prun W B true close0 srcOf gp (CacheI3.fresh d0' s0') pre').1
+      (.pgrad fid p rest)).2 := by
+  have a1 := c06_i3_product_trace W B close0 hrefl srcOf gp d0 s0 pre (.pgrad fid p rest)
+  have a2 := c06_i3_product_trace W B close0 hrefl srcOf gp d0' s0' pre' (.pgrad fid p rest)
+  have e : ∀ (d : D) (l : List (CacheI3.POp D S F)), CacheI3.plastData d (l ++ [.pgrad fid p rest]) = CacheI3.plastData d l := by
+    intro d l; rw [plast_snoc_d]; rfl
+  have e' : ∀ (s : S) (l : List (CacheI3.POp D S F)), CacheI3.plastSrc s (l ++ [.pgrad fid p rest]) = CacheI3.plastSrc s l := by
+    intro s l; rw [plast_snoc_s]; rfl
+  simp only [PAnswer, e, e'] at a1 a2
+  rcases a1 with a1 | a1
+  · rcases a2 with a2 | a2
+    · rw [a1, a2, hd, hs]
+    · exact absurd a2 h2
+  · exact absurd a1 h1
+
+/-- the product rule as coded reduces to the general formula `r1·g2 + g1·r2` with a zero row for a factor that does not
+depend on the fit parameter (exact arithmetic: any commutative semiring) -/
+theorem c06_i3_product_rule {A : Type} [CommSemiring A] [DecidableEq A] (dep1 dep2 : Bool) (r1 g1 r2 : List A) (g2 : Option (List A))
+    (n : Nat) (h1 : r1.length = n) (h2 : r2.length = n) (hg1 : g1.length = n) (hg2 : ∀ g, g2 = some g → g.length = n)
+    (hz1 : dep1 = false → g1 = List.replicate n 0) (hz2 : dep2 = false → g2 = none) (hdep : dep1 = true ∨ dep2 = true) :
+    CacheI3.combine dep1 dep2 r1 g1 r2 g2 =
+      .vals (CacheI3.addRows (CacheI3.mulRows r1 (CacheI3.gradOrZero n g2)) (CacheI3.mulRows g1 r2)) := by
+  have zr : ∀ (l : List A), l.length = n → CacheI3.mulRows l (List.replicate n 0) = List.replicate n 0 := by
+    intro l hl; subst hl; exact mulRows_zero_right l
+  have zl : ∀ (l : List A), l.length = n → CacheI3.mulRows (List.replicate n 0) l = List.replicate n 0 := by
+    intro l hl; subst hl; exact mulRows_zero_left l
+  have az : ∀ (l : List A), l.length = n → CacheI3.addRows l (List.replicate n 0) = l := by
+    intro l hl; subst hl; exact addRows_zero_right l
+  have za : ∀ (l : List A), l.length = n → CacheI3.addRows (List.replicate n 0) l = l := by
+    intro l hl; subst hl; exact addRows_zero_left l
+  have lm : ∀ (a b : List A), a.length = n → b.length = n → (CacheI3.mulRows a b).length = n := by
+    intro a b ha hb; simp [CacheI3.mulRows, ha, hb]
+  cases dep1 <;> cases dep2
+  · simp at hdep
+  · have := hz1 rfl
+    subst this
+    simp only [CacheI3.combine, Bool.false_and, Bool.false_eq_true, if_false, if_true, h1]
+    rw [zl r2 h2, az]
+    cases g2 with
+    | none => simp [CacheI3.gradOrZero, CacheI3.mulRows, h1]
+    | some g => exact lm _ _ h1 (hg2 g rfl)
+  · have := hz2 rfl
+    subst this
+    simp only [CacheI3.combine, Bool.and_false, Bool.false_eq_true, if_false, if_true, CacheI3.gradOrZero]
+    rw [zr r1 h1, za _ (lm _ _ hg1 h2)]
+  · simp [CacheI3.combine, h1]
+
+end I3Product
+
+/-- the product trace theorem for the flags / constants of the current source, over exact rationals -/
+theorem c06_i3_product_trace_for_current_source {D S : Type} (W : CacheI3.World D S ℚ (List ℚ × List ℚ))
+    (B : CacheI3.Stub D S ℚ) (srcOf : D → List Nat) (gp : List Nat) (d0 : D) (s0 : S)
+    (pre : List (CacheI3.POp D S ℚ)) (o : CacheI3.POp D S ℚ) :
+    let close0 := CacheI3.closeAbs (Gen.C06.i3Atol : ℚ)
+    let st := (CacheI3.prun W B Gen.C06.bumpAlways close0 srcOf gp (CacheI3.fresh d0 s0) pre).1
+    PAnswer W B close0 srcOf gp (CacheI3.plastData d0 (pre ++ [o])) (CacheI3.plastSrc s0 (pre ++ [o])) o
+      (CacheI3.pstep W B Gen.C06.bumpAlways close0 srcOf gp st o).2 := by
+  have hb : Gen.C06.bumpAlways = true := by simp [Gen.C06.bumpAlways]
+  rw [hb]
+  exact c06_i3_product_trace W B _ c06_i3_close_refl_for_current_source srcOf gp d0 s0 pre o
+
+/-! non-vacuity -/
+example : ∀ a : Nat, (fun x y : Nat => x == y) a a = true := by intro a; simp
+/-- a product history over K = 2 sources: ratio, gradient for a parameter of source 0 only (masked row), for one both
+factors depend on, for one nobody depends on (scalar 0), across a new trial -/
+example :
+    (CacheI3.prun (⟨fun d _ k => ([d + 1, d + 2], k.map (· + 10) ++ [3])⟩ : CacheI3.World Nat Nat Nat (List Nat × List Nat))
+        ⟨fun _ _ => [2, 3], fun _ _ fid => if fid = 2 then some [1, 1] else none, fun fid => fid == 2⟩ true (fun a b => a == b)
+        (fun _ => [0, 1]) [2, 3] (CacheI3.fresh 0 0)
+        [.pratio 7 [8], .pgrad 1 7 [8], .pgrad 2 7 [8], .pgrad 0 7 [8], .low (.initTrial 1), .pratio 7 [8]]).2
+      = [.vals [2, 6], .vals [34, 0], .vals [1, 56], .zero, .low .unit, .vals [4, 9]] := by decide
+/-- K = 2: equal values are cut to one row and hit a slot filled by the one-row key; different values miss -/
+example :
+    (CacheI3.run (⟨fun d _ k => (d, k)⟩ : CacheI3.World Nat Nat Nat (Nat × List Nat)) true (fun a b => a == b)
+        (CacheI3.fresh 0 0) [.get 7 [7], .get 7 [7], .get 7 [8], .initTrial 1, .get 7 [8]]).2
+      = [.val (0, [7]) false, .val (0, [7]) true, .val (0, [7, 8]) false, .unit, .val (1, [7, 8]) false] := by decide
+example : CacheI3.gradOut [0, 0, 1, 1] [1, 2] 0 [5, 6, 7, 8] = ([5, 6, 0, 0] : List Int) := by decide
+example : CacheI3.gradOut [0, 0, 1, 1] [2, 2] 1 [5, 6, 7, 8] = ([5, 6, 7, 8] : List Int) := by decide
+example : CacheI3.gradOut [0, 0, 1, 1] [2, 2] 0 [5, 6, 7, 8] = ([0, 0, 0, 0] : List Int) := by decide
+
+end I3
